@@ -1,7 +1,7 @@
 (* C11 — obligations (statements only; proofs in Proofs.v) *)
-From Coq Require Import ZArith NArith List Bool.
+From Coq Require Import ZArith NArith List Bool Permutation Lia.
 Import ListNotations.
-From OBI.C11 Require Import Model Spec Proofs.
+From OBI.C11 Require Import Model Spec Proofs Multiset MultisetStrand MultisetCirc MultisetCircSym Fragments FragPcr.
 Open Scope Z_scope.
 
 (* On a linear template _Pcr never reaches its log.Fatal (every Subsequence call is in range). *)
@@ -26,12 +26,26 @@ Theorem C11_strand_symmetry : forall o t a, ext_ok o ->
   (spec_pcr_lin o (rc t) a <-> spec_pcr_lin o t (flip a)).
 Proof. exact strand_symmetry. Qed.
 
-(* ... carried to the model of _Pcr (linear templates). PARTIAL with respect to the property text: this is equality
-   of the SETS of reported records; that multiplicities agree as well (same multiset) is not proved here — it is
-   checked on every run by the relational clause of tools/props/c11.py (implementation against implementation). *)
-Theorem C11_strand_symmetry_impl_partial : forall o t l l' a, linear_ok o ->
-  pcr o t = Some l -> pcr o (rc t) = Some l' -> (In a l' <-> In (flip a) l).
-Proof. exact pcr_strand_symmetry. Qed.
+(* Soundness and completeness at the level of MULTISETS (linear templates): the list returned by the model of _Pcr is a
+   permutation of amps_lin o t, the list holding exactly one record per pair (site of one primer, site of the
+   complemented other primer) that satisfies the length bounds (Spec.v; sites = positions within the error budget) —
+   no pair is reported twice, none is missing. In a (amps_lin o t) is the relational specification above. *)
+Theorem C11_sound_complete_multiset : forall o t, linear_ok o ->
+  exists l, pcr o t = Some l /\ Permutation l (amps_lin o t).
+Proof. exact pcr_lin_multiset. Qed.
+
+Theorem C11_amps_lin_spec : forall o t a, linear_ok o -> (In a (amps_lin o t) <-> spec_pcr_lin o t a).
+Proof. exact in_amps_lin. Qed.
+
+(* Strand symmetry as in the property text: reverse-complementing the template gives the same MULTISET of amplicons
+   with the direction flipped — for the specification, and for the model of _Pcr (linear templates). *)
+Theorem C11_strand_symmetry_multiset : forall o t, ext_ok o ->
+  Permutation (amps_lin o (rc t)) (map flip (amps_lin o t)).
+Proof. exact amps_lin_strand. Qed.
+
+Theorem C11_strand_symmetry_impl : forall o t l l', linear_ok o ->
+  pcr o t = Some l -> pcr o (rc t) = Some l' -> Permutation l' (map flip l).
+Proof. exact pcr_strand_multiset. Qed.
 
 (* Rotation invariance of the specification of circular templates: writing the same circle from another origin
    does not change the set of amplicons (sequences, directions, match strings, error counts).
@@ -41,44 +55,60 @@ Theorem C11_rotation_invariant : forall o t r a, (r <= length t)%nat ->
   (spec_pcr_circ o (rot r t) a <-> spec_pcr_circ o t a).
 Proof. exact rotation_invariant. Qed.
 
-(* Circular templates, model of the (repaired) _Pcr against the circular specification. PARTIAL with respect to the
-   property text: circular_ok restricts runs WITH an extension to those where a max length is set and the longest
-   flanked amplicon (primers + max + 2 flanks) fits the circle; beyond that the code cuts the flanked segment modulo
-   the template length (known finding, C11_circular_overlong_flank_refuted). Full statement: the same theorems for
-   every o with o_circ o = true. *)
-Theorem C11_circular_never_fatal_partial : forall o t, circular_ok o t -> pcr o t <> None.
+(* Circular templates, model of the (repaired) _Pcr and _Segment against the circular specification. The only
+   hypotheses left (circular_ok) are on the options: extension >= 0 when requested, primers non-empty and within the
+   matcher's MAX_PAT_LEN. The template is arbitrary: empty, shorter than a primer (round-1 known finding, repaired by
+   the cyclic copy in EncodeSequence), flanked amplicon longer than the circle (round-1 known finding, repaired by
+   _Segment walking around the circle). *)
+Theorem C11_circular_never_fatal : forall o t, circular_ok o -> pcr o t <> None.
 Proof. exact pcr_circ_total. Qed.
 
-Theorem C11_circular_sound_partial : forall o t l a, circular_ok o t -> pcr o t = Some l -> In a l -> spec_pcr_circ o t a.
+Theorem C11_circular_sound : forall o t l a, circular_ok o -> pcr o t = Some l -> In a l -> spec_pcr_circ o t a.
 Proof. exact pcr_circ_sound. Qed.
 
-Theorem C11_circular_complete_partial : forall o t a, circular_ok o t -> spec_pcr_circ o t a ->
+Theorem C11_circular_complete : forall o t a, circular_ok o -> spec_pcr_circ o t a ->
   exists l, pcr o t = Some l /\ In a l.
 Proof. exact pcr_circ_complete. Qed.
 
-(* The recorded known finding "flanked amplicon longer than the circle", on the model (faithful to the code): forward
-   primer acgt, reverse primer ggcc, extension 10, on the 30-base circle acgt a^15 ggcc t^7 the pair (acgt at 0, ggcc at
-   19) has a flanked amplicon of 4+15+4+20 = 43 bases; what is reported is 13 bases long — shorter than the two
-   primers and the two flanks it is supposed to contain. *)
-Theorem C11_circular_overlong_flank_refuted :
-  exists o t l, o_circ o = true /\ o_ext o = Some 10 /\ pcr o t = Some l /\
-    exists s f kf r kr, In (s, true, f, kf, r, kr) l /\ len s < len f + len r + 2 * 10.
-Proof. exact overlong_flank_refuted. Qed.
+(* ... and as multisets: one record per pair of sites of the circle (amps_circ, Spec.v), whose members are exactly the
+   amplicons of the relational specification (no hypothesis at all for that link). *)
+Theorem C11_circular_sound_complete_multiset : forall o t, circular_ok o ->
+  exists l, pcr o t = Some l /\ Permutation l (amps_circ o t).
+Proof. exact pcr_circ_multiset. Qed.
 
-(* Strand symmetry on circular templates: specification level, and carried to the model of _Pcr (sets of records). *)
+Theorem C11_amps_circ_spec : forall o t a, In a (amps_circ o t) <-> spec_pcr_circ o t a.
+Proof. exact in_amps_circ. Qed.
+
+(* _Segment on a circular template: to - from letters read along the circle from position from (any integer), however
+   many turns that takes. *)
+Theorem C11_segment_circular : forall t from to, 0 < len t -> 0 < to - from ->
+  segment t from to true = Some (circ t from (to - from)).
+Proof. exact segment_circ. Qed.
+
+(* Strand symmetry on circular templates: specification level (relational and multiset), and the model of _Pcr
+   (multiset). *)
 Theorem C11_strand_symmetry_circular : forall o t a, ext_ok o ->
   (spec_pcr_circ o (rc t) a <-> spec_pcr_circ o t (flip a)).
 Proof. exact strand_symmetry_circ. Qed.
 
-Theorem C11_strand_symmetry_circular_impl_partial : forall o t l l' a, circular_ok o t ->
-  pcr o t = Some l -> pcr o (rc t) = Some l' -> (In a l' <-> In (flip a) l).
-Proof. exact pcr_strand_symmetry_circ. Qed.
+Theorem C11_strand_symmetry_circular_multiset : forall o t, ext_ok o ->
+  Permutation (amps_circ o (rc t)) (map flip (amps_circ o t)).
+Proof. exact amps_circ_strand. Qed.
 
-(* Rotation invariance of the model of _Pcr: the SET of reported records does not depend on where the origin of the
-   circular template is written (circular_ok: primers not longer than the circle, flanks fitting the circle). *)
-Theorem C11_rotation_invariant_impl_partial : forall o t r l l' a, (r <= length t)%nat -> circular_ok o t ->
-  pcr o t = Some l -> pcr o (rot r t) = Some l' -> (In a l' <-> In a l).
-Proof. exact pcr_rotation. Qed.
+Theorem C11_strand_symmetry_circular_impl : forall o t l l', circular_ok o ->
+  pcr o t = Some l -> pcr o (rc t) = Some l' -> Permutation l' (map flip l).
+Proof. exact pcr_strand_circ_multiset. Qed.
+
+(* Rotation invariance as multisets: writing the same circle from another origin permutes the list of records — for the
+   specification (no hypothesis) and for the model of _Pcr (circular_ok: options only). Stronger than the property text
+   (which asks for the set). *)
+Theorem C11_rotation_invariant_multiset : forall o t r, (r <= length t)%nat ->
+  Permutation (amps_circ o (rot r t)) (amps_circ o t).
+Proof. exact amps_circ_rot. Qed.
+
+Theorem C11_rotation_invariant_impl : forall o t r l l', (r <= length t)%nat -> circular_ok o ->
+  pcr o t = Some l -> pcr o (rot r t) = Some l' -> Permutation l' l.
+Proof. exact pcr_rotation_multiset. Qed.
 
 (* The part of a recycled C buffer that the matcher can read after new_apatseq is the template (plus its
    circular extension) whatever the buffer held before. *)
@@ -93,6 +123,72 @@ Proof. exact batch_independent. Qed.
    arguments.) *)
 Theorem C11_batch_independent : forall o ts buf, pcr_slice_from o buf ts = map (pcr o) ts.
 Proof. exact pcr_slice_from_spec. Qed.
+
+(* obipcr --fragmented cuts long sequences with obiiter.IFragments(minsize = 1000 max, length = 100 max, overlap = max + both
+   primer lengths) — model `fragments` (Model.v, tied to IFragments on every run). Hypothesis: overlap < length, i.e. a
+   positive step (with the CLIPCR arguments: 99 max > sum of the primer lengths; false only for -L 1 with primers totalling
+   99 bases or more, where the loop of IFragments does not advance).
+   Completeness: every interval [a, b) not longer than the overlap — every amplicon, primers included, whose insert is
+   within max — lies entirely inside a fragment, namely the one that OWNS position a (a fragment owns the positions less
+   than step after its start; the last fragment owns everything after its start). *)
+Theorem C11_fragments_cover : forall minsize length overlap N a b,
+  overlap < length -> 0 <= overlap -> 0 <= a -> a < b -> b <= N -> b - a <= overlap ->
+  exists f, In f (fragments minsize length overlap N) /\ inside a b f /\ owns N (length - overlap) a f.
+Proof. exact fragments_cover. Qed.
+
+(* ... the owner is unique: reporting an amplicon only from the fragment that owns its first position reports it exactly
+   once (the rule a de-duplication has to implement; recorded known finding fragmented-duplicates). *)
+Theorem C11_fragments_owner_unique : forall minsize length overlap N a f1 f2,
+  overlap < length -> 0 <= overlap ->
+  In f1 (fragments minsize length overlap N) -> In f2 (fragments minsize length overlap N) ->
+  owns N (length - overlap) a f1 -> owns N (length - overlap) a f2 -> f1 = f2.
+Proof. exact fragments_owner_unique. Qed.
+
+(* Duplicates characterised: an interval found in two fragments lies in the zone they share, which is at most `overlap`
+   long — so only amplicons (primers included) not longer than max + both primer lengths can be written twice, and they
+   are exactly those lying inside such a zone. *)
+Theorem C11_fragments_duplicate_zone : forall minsize length overlap N a b f1 f2,
+  overlap < length -> 0 <= overlap ->
+  In f1 (fragments minsize length overlap N) -> In f2 (fragments minsize length overlap N) -> fst f1 < fst f2 ->
+  inside a b f1 -> inside a b f2 ->
+  fst f2 <= a /\ b <= fst f1 + length /\ fst f1 + length - fst f2 <= overlap.
+Proof. exact fragments_duplicate_zone. Qed.
+
+Theorem C11_fragments_wf : forall minsize length overlap N s e,
+  overlap < length -> 0 <= overlap -> 0 < N -> In (s, e) (fragments minsize length overlap N) ->
+  0 <= s /\ s < e /\ e <= N.
+Proof. exact fragments_wf. Qed.
+
+(* obipcr --fragmented against the unfragmented search (linear templates, no flanks requested, max set — always the case
+   from the command line): searching every fragment finds exactly the amplicons of the whole template, as a SET
+   (specification level, and for the model of _Pcr run on each fragment). Hypotheses: a positive step and an overlap that
+   holds both primers and the longest insert — what CLIPCR passes since the round-1 fix (overlap = max + both primer
+   lengths). Not covered: flanks (--delta: clipped at fragment ends), multiplicities (duplicates, see above), ids. *)
+Theorem C11_fragmented_sound : forall o t minsize length overlap a,
+  o_ext o = None -> overlap < length -> 0 <= overlap ->
+  frag_amps o t minsize length overlap a -> spec_pcr_lin o t a.
+Proof. exact fragmented_sound. Qed.
+
+Theorem C11_fragmented_complete : forall o t minsize length overlap a,
+  o_ext o = None -> 0 < o_max o -> overlap < length -> len (o_fwd o) + o_max o + len (o_rev o) <= overlap ->
+  spec_pcr_lin o t a -> frag_amps o t minsize length overlap a.
+Proof. exact fragmented_complete. Qed.
+
+Theorem C11_fragmented_impl : forall o t minsize length overlap a,
+  linear_ok o -> o_ext o = None -> 0 < o_max o -> overlap < length -> len (o_fwd o) + o_max o + len (o_rev o) <= overlap ->
+  ((exists f l, In f (fragments minsize length overlap (len t)) /\ pcr o (slice t (fst f) (snd f)) = Some l /\ In a l) <->
+   (exists l, pcr o t = Some l /\ In a l)).
+Proof. exact fragmented_impl. Qed.
+
+(* the witness of the known finding: -L 25, primers of 8 bases: the 19-base amplicon at 2470 of a 26000-base sequence lies
+   inside the first two fragments *)
+Example C11_fragments_duplicate_witness :
+  let fs := fragments 25000 2500 41 26000 in
+  firstn 2 fs = [(0, 2500); (2459, 4959)] /\ inside 2470 2489 (0, 2500) /\ inside 2470 2489 (2459, 4959) /\
+  owns 26000 2459 2470 (2459, 4959) /\ ~ owns 26000 2459 2470 (0, 2500).
+Proof.
+  cbn zeta. split; [vm_compute; reflexivity|]. unfold inside, owns. cbn [fst snd]. repeat split; try lia.
+Qed.
 
 Example C11_batch_nonvacuous :
   let o := mko [1;2;4;8]%N [4;4;2;2]%N 0 0 0 0 None false false in
@@ -119,6 +215,18 @@ Proof.
   eexists. split; [vm_compute; reflexivity|]. split; [reflexivity|]. cbn; auto 10.
 Qed.
 
+(* the search window of the reverse orientation (repaired in round 2: sized with the complemented FORWARD primer): forward
+   primer a^66, reverse primer c, max 5, template c ggggg t^66 — the amplicon carried by the reverse strand ends 72 bases
+   after the first reverse-primer match; the former window (reverse primer length + FindAllIndex margin) stopped at 71 *)
+Example C11_window_example :
+  let o := mko (repeat 1%N 66) [2]%N 0 0 0 5 None false false in
+  linear_ok o /\
+  pcr o ([1] ++ repeat 2 5 ++ repeat 3 66)%N = Some [(repeat 1 5, false, repeat 0 66, 0, [1], 0)]%N.
+Proof.
+  split; [|vm_compute; reflexivity].
+  repeat split; try discriminate.
+Qed.
+
 (* non-vacuity of the circular specification: forward primer acgt spanning the origin of the 17-base circle
    gtaaaaaggccttttac, complemented reverse primer ggcc at 7: insert aaaaa *)
 Example C11_rotation_nonvacuous :
@@ -142,26 +250,54 @@ Qed.
 Example C11_circular_nonvacuous :
   let o := mko [1;2;4;8]%N [4;4;2;2]%N 0 0 0 6 (Some 2) false true in
   let t := [2;3;0;0;0;0;0;2;2;1;1;3;3;3;3;3;3;3;0;1]%N in
-  circular_ok o t /\
+  circular_ok o /\
   pcr o t = Some [([3;3;0;1;2;3;0;0;0;0;0;2;2;1;1;3;3]%N, true, [0;1;2;3]%N, 0%N, [2;2;1;1]%N, 0%N)].
 Proof.
   split; [|vm_compute; reflexivity].
-  unfold circular_ok, flank_fits. cbn [o_circ o_ext o_max o_fwd o_rev].
-  repeat split; try discriminate; vm_compute; discriminate.
+  unfold circular_ok, ext_ok. cbn [o_circ o_ext o_max o_fwd o_rev].
+  repeat split; try discriminate; try (vm_compute; discriminate). intros x H. inversion H. discriminate.
 Qed.
+
+(* the two round-1 known findings on circular templates, repaired: (a) the 43-base flanked amplicon of a 30-base circle
+   is reported whole; (b) primer acgtacgta (9 bases) on the 4-base circle acgt: both amplicons, full match strings *)
+Example C11_circular_overlong_flank_example :
+  exists l, pcr (mko [1;2;4;8]%N [4;4;2;2]%N 0 0 0 0 (Some 10) false true)
+              ([0;1;2;3] ++ repeat 0 15 ++ [2;2;1;1] ++ repeat 3 7)%N = Some l /\
+    exists s f kf r kr, In (s, true, f, kf, r, kr) l /\ len s = len f + 15 + len r + 2 * 10.
+Proof. exact overlong_flank_example. Qed.
+
+Example C11_circular_short_template_example :
+  pcr (mko [1;2;4;8;1;2;4;8;1]%N [4;8;1]%N 0 0 0 0 None false true) [0;1;2;3]%N =
+  Some [([1;2]%N, true, [0;1;2;3;0;1;2;3;0]%N, 0%N, [2;3;0]%N, 0%N);
+        ([1;2]%N, false, [0;1;2;3;0;1;2;3;0]%N, 0%N, [2;3;0]%N, 0%N)].
+Proof. vm_compute. reflexivity. Qed.
 
 Print Assumptions C11_linear_never_fatal.
 Print Assumptions C11_sound.
 Print Assumptions C11_complete.
 Print Assumptions C11_strand_symmetry.
-Print Assumptions C11_strand_symmetry_impl_partial.
+Print Assumptions C11_sound_complete_multiset.
+Print Assumptions C11_amps_lin_spec.
+Print Assumptions C11_strand_symmetry_multiset.
+Print Assumptions C11_strand_symmetry_impl.
 Print Assumptions C11_rotation_invariant.
-Print Assumptions C11_circular_never_fatal_partial.
-Print Assumptions C11_circular_sound_partial.
-Print Assumptions C11_circular_complete_partial.
-Print Assumptions C11_circular_overlong_flank_refuted.
+Print Assumptions C11_circular_never_fatal.
+Print Assumptions C11_circular_sound.
+Print Assumptions C11_circular_complete.
+Print Assumptions C11_circular_sound_complete_multiset.
+Print Assumptions C11_amps_circ_spec.
+Print Assumptions C11_segment_circular.
 Print Assumptions C11_strand_symmetry_circular.
-Print Assumptions C11_strand_symmetry_circular_impl_partial.
-Print Assumptions C11_rotation_invariant_impl_partial.
+Print Assumptions C11_strand_symmetry_circular_multiset.
+Print Assumptions C11_strand_symmetry_circular_impl.
+Print Assumptions C11_rotation_invariant_multiset.
+Print Assumptions C11_rotation_invariant_impl.
 Print Assumptions C11_buffer_overwritten.
 Print Assumptions C11_batch_independent.
+Print Assumptions C11_fragments_cover.
+Print Assumptions C11_fragments_owner_unique.
+Print Assumptions C11_fragments_duplicate_zone.
+Print Assumptions C11_fragments_wf.
+Print Assumptions C11_fragmented_sound.
+Print Assumptions C11_fragmented_complete.
+Print Assumptions C11_fragmented_impl.
